@@ -2,6 +2,8 @@
 import re
 from ..tree import *  # noqa
 from ..flow import Index
+from .. import norm
+from ..norm import tail_value
 from .c02 import binding_of_pat, mname
 
 TS = "patronus::system::transition_system::TransitionSystem"
@@ -89,32 +91,31 @@ def run(ctx):
     # update_expressions ---------------------------------------------------------------------------------
     u = ctx.fn("patronus", TS + "::update_expressions")
     uix = Index(u["body"])
-    P = {name: i for p in u["params"] for name, i in pat_bindings(p)}
-    upd = P.get("update")
+    upd = (param_ids(u) + [None] * 3)[2]            # update_expressions(&mut self, ctx, update)
+    udefs = local_defs(u)
     done = {}
     for a in uix.nodes:
         if a.get("k") != "assign":
             continue
-        loop = uix.enclosing(a, ("for",))
-        if loop is None:
-            continue
-        b, ms = chain(loop["iter"])
-        fp = field_path(b)
-        if not (fp and fp[0] == "self" and len(fp[2]) == 1 and [m[0] for m in ms] == ["iter_mut"]):
-            continue
-        coll = fp[2][0]
-        lb = binding_of_pat(loop["pat"])
         lhs = a["l"]
         lfp = field_path(lhs)
-        if lfp is None or lb is None or lfp[1] != lb[1]:
+        if lfp is None or lfp[1] is None:
             continue
-        key = (coll, lfp[2][0] if lfp[2] else None)
-        if key not in car:
+        src = element_source(uix, udefs, lfp[1])
+        if src is None:
             continue
-        ok, why = repoint_ok(a, lhs, upd, car[key])
-        uncond = len(uix.regions[id(a)]) == len(uix.regions[id(loop)]) + 1 and not any(x.get("k") in ("break", "continue", "return") for x in walk(loop["body"]))
-        done[key] = True
-        ctx.inst("R11.1", "update_expressions:%s" % fmt(key), ok and uncond, a["sp"], "%s is re-pointed by `%s`: %s" % (fmt(key), show(a), why if not ok else "assignment is conditional"), sample=show(a))
+        colls, scope, scope_ok = src
+        keys = [(coll, lfp[2][0] if lfp[2] else None) for coll in colls]
+        if not all(k_ in car for k_ in keys) or len({car[k_] for k_ in keys}) != 1:
+            continue
+        ok, why, anchor = repoint_ok(uix, a, lhs, upd, car[keys[0]])
+        # the re-pointing statement runs for every element: directly in the body of the element loop / for_each closure
+        uncond = scope_ok and len(uix.regions[id(anchor)]) == len(uix.regions[id(scope)]) + 1 and not any(x.get("k") in ("break", "continue", "return") and not x.get("inl") for x in walk(scope["body"]))
+        for key in keys:
+            if done.get(key) is True:
+                continue
+            done[key] = ok and uncond
+            ctx.inst("R11.1", "update_expressions:%s" % fmt(key), ok and uncond, a["sp"], "%s is re-pointed by `%s`: %s" % (fmt(key), show(a), why if not ok else "assignment is conditional"), sample=show(a))
     for key in car:
         if key not in done:
             ctx.violation("R11.1", "update_expressions:%s" % fmt(key), u["span"], "update_expressions never re-points %s: after a transformation it still refers to the old expression" % fmt(key))
@@ -136,32 +137,105 @@ def same_place(a, b):
     return show(peel(a)) == show(peel(b))
 
 
-def repoint_ok(a, lhs, upd, kind):
+def element_source(ix, defs, bid):
+    """for a binding that stands for one element of self.<coll> (loop variable of `for x in self.coll.iter_mut()`, parameter of
+    `self.coll.iter_mut().for_each(|x| ..)`, possibly through `for list in [&mut self.a, &mut self.b]`): ([coll..], scope node, unconditional)"""
+    d = defs.get(bid)
+    if d is None:
+        return None
+    kind, node, pat = d
+    if kind == "for":
+        it, scope = node["iter"], node
+    elif kind == "closure":
+        par = ix.parent.get(id(node))
+        while par is not None and par.get("k") in ("ref",):
+            par = ix.parent.get(id(par))
+        if not (par is not None and par.get("k") == "mcall" and par["name"] == "for_each" and peel(par["args"][0]) is node):
+            return None
+        it, scope = par["recv"], node
+    else:
+        return None
+    b, ms = chain(it)
+    if [m[0] for m in ms] not in (["iter_mut"], []):
+        return None
+    fp = field_path(b)
+    if fp and fp[0] == "self" and len(fp[2]) == 1:
+        return [fp[2][0]], scope, True
+    b = peel(b)
+    if b.get("k") == "local" and defs.get(b["id"], ("",))[0] == "for":
+        outer = defs[b["id"]][1]
+        arr = peel(outer["iter"])
+        if arr.get("k") == "array":
+            colls = []
+            for e in arr["es"]:
+                fpe = field_path(e)
+                if not (fpe and fpe[0] == "self" and len(fpe[2]) == 1):
+                    return None
+                colls.append(fpe[2][0])
+            inner_uncond = len(ix.regions[id(scope)]) == len(ix.regions[id(outer)]) + 1 and not any(x.get("k") in ("break", "continue", "return") for x in walk(outer["body"]))
+            return colls, scope, inner_uncond
+    return None
+
+
+def calls_update(e, upd, arg_ok):
+    e = peel(e)
+    return e.get("k") == "callv" and is_local(e["f"], upd) and len(e["args"]) == 1 and arg_ok(e["args"][0])
+
+
+def repoint_ok(ix, a, lhs, upd, kind):
+    """(ok, why, statement that must be unconditional)"""
     r = strip_try(a["r"])
     base, ms = chain(r)
     names = [m[0] for m in ms]
+    here = lambda x: same_place(x, lhs)
     if kind == "plain":
         # update(P).unwrap_or(P)
         if base.get("k") == "callv" and is_local(base["f"], upd) and names == ["unwrap_or"]:
             if same_place(base["args"][0], lhs) and same_place(ms[0][1][0], lhs):
-                return True, ""
-            return False, "argument or fallback is not the field's own old value"
-        return False, "not of the form update(old).unwrap_or(old)"
-    # option: P.and_then(update)  /  P.map(|e| update(e).unwrap_or(e))
+                return True, "", a
+            return False, "argument or fallback is not the field's own old value", a
+        # if let Some(new) = update(P) { P = new }   /   match update(P) { Some(new) => P = new, None => {} }
+        if peel(r).get("k") == "local":
+            for anc in ix.ancestors(a):
+                if anc.get("k") not in ("if", "match"):
+                    continue
+                oe = norm.opt_elim(anc) if anc.get("k") == "match" or "else" in anc else None
+                if anc.get("k") == "if" and "else" not in anc and peel(anc["cond"]).get("k") == "letexpr":
+                    c_ = peel(anc["cond"])
+                    pat = c_["pat"]
+                    if pat.get("k") == "pvariant" and pat["path"].endswith("Option::Some") and len(pat["subs"]) == 1:
+                        b_ = pat_bindings(pat["subs"][0])
+                        oe = {"scrut": c_["init"], "bind": b_[0][1] if len(b_) == 1 else None, "some": anc["then"], "none": None}
+                if oe and oe["bind"] is not None and is_local(r, oe["bind"]) and contains(oe["some"], a):
+                    if not calls_update(oe["scrut"], upd, here):
+                        return False, "the new value does not come from update(the field's own old value)", anc
+                    if oe["none"] is not None and any(x.get("k") in ("assign", "assignop") for x in walk(oe["none"])):
+                        return False, "the None branch assigns as well", anc
+                    # the assignment is the only thing between the test and the store: directly in the Some branch
+                    if len(ix.regions[id(a)]) != len(ix.regions[id(anc)]) + 1:
+                        return False, "the store is conditional inside the Some branch", anc
+                    return True, "", anc
+        return False, "not of the form update(old).unwrap_or(old)", a
+    # option: P.and_then(update)  /  P.map(|e| update(e).unwrap_or(e))  /  match P { Some(x) => update(x), None => None }
     if same_place(base, lhs) and names == ["and_then"]:
-        f = peel(ms[0][1][0])
-        if f.get("k") == "local" and f["id"] == upd:
-            return True, ""
+        f = resolve(ms[0][1][0])
+        if f.get("k") == "local" and is_local(f, upd):
+            return True, "", a
         if f.get("k") == "closure":
-            return any(x.get("k") == "callv" and is_local(x["f"], upd) for x in walk(f)), "closure does not call update"
+            return any(x.get("k") == "callv" and is_local(x["f"], upd) for x in walk(f)), "closure does not call update", a
     if same_place(base, lhs) and names == ["map"]:
-        f = peel(ms[0][1][0])
+        f = resolve(ms[0][1][0])
         if f.get("k") == "closure" and len(f["params"]) == 1:
             pb = binding_of_pat(f["params"][0])
             b2, ms2 = chain(peel_block(f["body"]))
             if b2.get("k") == "callv" and is_local(b2["f"], upd) and pb and is_local(b2["args"][0], pb[1]) and [m[0] for m in ms2] == ["unwrap_or"] and is_local(ms2[0][1][0], pb[1]):
-                return True, ""
-    return False, "not of the form old.and_then(update)"
+                return True, "", a
+    oe = norm.opt_elim(r)
+    if oe and oe["bind"] is not None and oe["some"] is not None and same_place(oe["scrut"], lhs):
+        none = tail_value(oe["none"])
+        if calls_update(tail_value(oe["some"]), upd, lambda x: is_local(x, oe["bind"])) and (callee(none) or none.get("path", "")).endswith("Option::None"):
+            return True, "", a
+    return False, "not of the form old.and_then(update)", a
 
 
 def do_transform(ctx):
@@ -194,30 +268,26 @@ def do_transform(ctx):
     ok = len(ups) == 1 and is_local(ups[0]["recv"], P.get("sys")) and calls and ix.precedes(calls[0], ups[0])
     why = "update_expressions must be called once on sys after the rewriting"
     if ok:
-        cl = peel(ups[0]["args"][-1])
+        cl = resolve(ups[0]["args"][-1])
         ok = cl.get("k") == "closure" and len(cl["params"]) == 1
         why = "lookup is not a closure"
         if ok:
             pb = binding_of_pat(cl["params"][0])
-            b = peel(peel_block(cl["body"]))
-            ok = b.get("k") == "if" and "else" in b
-            why = "lookup closure is not `if mode == FixedPoint {get_fixed_point(..)} else {map[..]}`"
+            disp = norm.enum_dispatch(cl["body"], P.get("mode"), MODE)
+            ok = disp is not None and pb is not None
+            why = "lookup closure is not a dispatch on mode between get_fixed_point(..) and map[..]"
             if ok:
-                cnd = peel(b["cond"])
-                okc = cnd.get("k") == "binary" and cnd["op"] in ("==", "!=")
-                pos = None
-                if okc:
-                    l, r = peel(cnd["l"]), peel(cnd["r"])
-                    for x, y in ((l, r), (r, l)):
-                        if x.get("k") == "local" and x["id"] == P.get("mode") and y.get("k") == "def" and (y.get("path") or "").startswith(MODE):
-                            pos = (y["path"].endswith("FixedPoint")) == (cnd["op"] == "==")
-                t, e = peel(peel_block(b["then"])), peel(peel_block(b["else"]))
-                if pos is False:
-                    t, e = e, t
-                okt = t.get("k") == "call" and callee(t) == GET_FIXED_POINT and is_local(t["args"][0], tmap) and is_local(t["args"][1], pb[1])
-                oke = e.get("k") == "index" and is_local(e["e"], tmap) and is_local(e["i"], pb[1])
-                ok = pos is not None and okt and oke
-                why = "lookup closure: %s" % show(b)[:200]
+                variants = ctx.facts.lib("patronus").adts.get(MODE[:-2], {}).get("variants", [])
+                vnames = [v["name"] for v in variants]
+                fp_branch = disp.get("FixedPoint")
+                others = [disp.get(v, disp.get("other")) for v in vnames if v != "FixedPoint"]
+                ok = fp_branch is not None and others and all(o is not None for o in others)
+                if ok:
+                    t = tail_value(fp_branch)
+                    okt = t.get("k") == "call" and callee(t) == GET_FIXED_POINT and is_local(t["args"][0], tmap) and is_local(t["args"][1], pb[1])
+                    oke = all(tail_value(e).get("k") == "index" and is_local(tail_value(e)["e"], tmap) and is_local(tail_value(e)["i"], pb[1]) for e in others)
+                    ok = okt and oke
+                why = "lookup closure: %s" % show(cl["body"])[:200]
     ctx.inst("R11.2", "do_transform:lookup", bool(ok), f["span"], why)
     # R11.3
     g = ctx.fn("patronus", "patronus::system::transform::simplify_expressions")
@@ -234,38 +304,60 @@ def anon(ctx):
     f = ctx.fn("patronus", "patronus::system::transform::replace_anonymous_inputs_with_zero")
     ix = Index(f["body"])
     defs = local_defs(f)
-    P = {name: i for p in f["params"] for name, i in pat_bindings(p)}
+    pid = param_ids(f) + [None, None]
+    p_sys = pid[1]                                 # replace_anonymous_inputs_with_zero(ctx, sys)
+    inserts_all = [n for n in ix.nodes if n.get("k") == "mcall" and n["name"] == "insert" and "HashMap" in (n.get("path") or "")]
     rets = [n for n in ix.nodes if n.get("k") == "mcall" and n["name"] == "retain"]
-    ok = len(rets) == 1
-    if not ok:
-        ctx.violation("R11.4", "anon:retain", f["span"], "UNRECOGNISED: expected one inputs.retain(..) call")
+    form = None
+    if len(rets) == 1:
+        # form 1: sys.inputs.retain(|&input| ..): an input is kept iff the closure returns true
+        r = rets[0]
+        fp = field_path(r["recv"])
+        ctx.inst("R11.4", "anon:retain-on-inputs", fp is not None and fp[1] == p_sys and fp[2] == ["inputs"], r["sp"], "retain must run on sys.inputs")
+        cl = resolve(r["args"][0])
+        if cl.get("k") == "closure":
+            pb = None
+            for name, i in pat_bindings(cl["params"][0]):
+                pb = (name, i)
+            inserts = [n for n in walk(cl["body"]) if any(n is x for x in inserts_all)]
+            paths = [(v if isinstance(v, bool) else None, ins_) for v, ins_, st in path_effects(cl["body"], inserts, []) if st in ("value", "return")]
+            form, removal, body_sp = "retain", r, cl["sp"]
+    elif not rets:
+        # form 2: a loop over sys.inputs that pushes the kept inputs onto a new list which then replaces sys.inputs
+        stores = [a for a in ix.nodes if a.get("k") == "assign" and field_path(a["l"]) and field_path(a["l"])[1] == p_sys and field_path(a["l"])[2] == ["inputs"] and peel(a["r"]).get("k") == "local"]
+        loops = [l for l in ix.nodes if l.get("k") == "for" and field_path(chain(l["iter"])[0]) and field_path(chain(l["iter"])[0])[1] == p_sys and field_path(chain(l["iter"])[0])[2] == ["inputs"]
+                 and [m[0] for m in chain(l["iter"])[1]] in (["iter"], ["iter", "copied"], ["iter", "cloned"], ["clone", "into_iter"], ["clone"])]
+        if len(stores) == 1 and len(loops) == 1 and ix.precedes(loops[0], stores[0]):
+            lp, newlist = loops[0], local_id(stores[0]["r"])
+            pbs = pat_bindings(lp["pat"])
+            pb = pbs[0] if len(pbs) == 1 else None
+            pushes = [n for n in walk(lp["body"]) if n.get("k") == "mcall" and n["name"] == "push" and is_local(n["recv"], newlist) and pb and is_local(n["args"][0], pb[1])]
+            other_mut = [n for n in ix.nodes if n.get("k") == "mcall" and is_local(n["recv"], newlist) and n["name"] not in ("push", "len", "is_empty") ]
+            inserts = [n for n in walk(lp["body"]) if any(n is x for x in inserts_all)]
+            eff = path_effects(lp["body"], inserts, pushes)
+            paths = [(bool(pu) if not other_mut else None, ins_) for pu, ins_, st in eff if st in ("value", "continue")]
+            if any(st in ("return", "break") for _, _, st in eff):
+                paths.append((None, False))
+            form, removal, body_sp = "rebuild", stores[0], lp["sp"]
+    if form is None:
+        ctx.violation("R11.4", "anon:retain", f["span"], "UNRECOGNISED: expected sys.inputs.retain(..) or a loop over sys.inputs that rebuilds the list")
         return
-    r = rets[0]
-    fp = field_path(r["recv"])
-    ctx.inst("R11.4", "anon:retain-on-inputs", fp is not None and fp[1] == P.get("sys") and fp[2] == ["inputs"], r["sp"], "retain must run on sys.inputs")
-    cl = peel(r["args"][0])
-    pb = None
-    for name, i in pat_bindings(cl["params"][0]):
-        pb = (name, i)
-    inserts = [n for n in walk(cl["body"]) if n.get("k") == "mcall" and n["name"] == "insert"]
     map_id = local_id(inserts[0]["recv"]) if inserts else None
-    # every path through the closure: returns false iff it passed an insert(input, ..)
-    paths = bool_paths(cl["body"], inserts)
+    # every path: the input is dropped iff the path passed an insert(input, ..)
     bad = [p for p in paths if p[0] is None or (p[0] is False) != p[1]]
-    ctx.inst("R11.4", "anon:retain-iff-recorded", len(inserts) == 1 and not bad and len(paths) >= 2, cl["sp"],
-             "the retain closure must return false exactly on the path that inserts into the replacement map (paths as (result, inserted): %s): an input removed without a replacement stays free in the expressions, one replaced but kept still constrains nothing" % paths,
-             sample={"paths(result, recorded)": paths})
+    ctx.inst("R11.4", "anon:retain-iff-recorded", len(inserts) == 1 and not bad and len(paths) >= 2, body_sp,
+             "an input must be removed exactly on the path that inserts into the replacement map (paths as (kept, recorded): %s): an input removed without a replacement stays free in the expressions, one replaced but kept still constrains nothing" % paths,
+             sample={"form": form, "paths(kept, recorded)": paths})
     if inserts:
         ins = inserts[0]
         okk = is_local(ins["args"][0], pb[1]) if pb else False
-        rep = peel(ins["args"][1])
-        ri = simple_let_init(defs, rep["id"]) if rep.get("k") == "local" else rep
+        ri = resolve(ins["args"][1])
         okz = False
         why = "replacement is not a match on the input's type"
-        if ri is not None and peel(ri).get("k") == "match":
-            m = peel(ri)
-            sc = strip_try(m["scrut"])
-            okz = sc.get("k") == "mcall" and sc["name"] == "get_type" and is_local(sc["recv"], pb[1])
+        if ri.get("k") == "match":
+            m = ri
+            sc = strip_try(resolve(m["scrut"]))
+            okz = sc.get("k") == "mcall" and sc["name"] == "get_type" and pb is not None and is_local(sc["recv"], pb[1])
             for arm in m["arms"]:
                 vb = [i for _, i in pat_bindings(arm["pat"])]
                 b = peel(peel_block(arm["body"]))
@@ -275,17 +367,79 @@ def anon(ctx):
                     why = "arm `%s` builds `%s`" % (show_pat(arm["pat"]), show(b))
         ctx.inst("R11.4", "anon:replacement-zero-of-own-type", okk and okz, ins["sp"], "the replacement recorded for a removed input must be zero(width)/zero_array(type) of that input's own type, keyed by the input: %s" % why, sample=show(ins))
     calls = [n for n in ix.nodes if n.get("k") == "call" and callee(n) == DO_TRANSFORM]
-    ok = len(calls) == 1 and ix.precedes(r, calls[0])
+    ok = len(calls) == 1 and ix.precedes(removal, calls[0])
     if ok:
         a = calls[0]["args"]
         m = peel(a[2])
-        cl2 = peel(a[3])
+        cl2 = resolve(a[3])
         ok = m.get("k") == "def" and m.get("path") == MODE + "SingleStep" and cl2.get("k") == "closure"
         if ok:
             ps = [binding_of_pat(p) for p in cl2["params"]]
             b, ms = chain(peel_block(cl2["body"]))
             ok = is_local(b, map_id) and [x[0] for x in ms] in (["get", "cloned"], ["get", "copied"]) and ps[1] and is_local(ms[0][1][0], ps[1][1])
     ctx.inst("R11.4", "anon:substitution", ok, f["span"], "the substitution must run after the removal as do_transform(.., SingleStep, |_, expr, _| replace_map.get(&expr).cloned())")
+
+
+def path_effects(n, inserts, pushes, ins=False, pu=False):
+    """paths through a closure / loop body: [(value literal or 'pushed' flag, passed an insert, status)] with status value|continue|return|break"""
+    def has(x, marks):
+        return any(any(y is m for m in marks) for y in walk(x))
+
+    def stmts_paths(stmts, tail, ins, pu):
+        states = [(ins, pu)]
+        out = []
+        for s_ in stmts:
+            nxt = []
+            for (i_, p_) in states:
+                for v, i2, p2, st in expr_paths(s_, i_, p_):
+                    if st == "value":
+                        nxt.append((i2, p2))
+                    else:
+                        out.append((v, i2, p2, st))
+            states = nxt
+        for (i_, p_) in states:
+            if tail is not None:
+                out += expr_paths(tail, i_, p_)
+            else:
+                out.append((None, i_, p_, "value"))
+        return out
+
+    def expr_paths(e, ins, pu):
+        k = e.get("k")
+        if k in ("semi",):
+            return [(None, i2, p2, st) for v, i2, p2, st in expr_paths(e["e"], ins, pu)]
+        if k == "blockexpr":
+            return stmts_paths(e["b"]["stmts"], e["b"].get("tail"), ins, pu)
+        if k == "block":
+            return stmts_paths(e["stmts"], e.get("tail"), ins, pu)
+        if k == "if":
+            i0, p0 = ins or has(e["cond"], inserts), pu or has(e["cond"], pushes)
+            out = expr_paths(e["then"], i0, p0)
+            out += expr_paths(e["else"], i0, p0) if "else" in e else [(None, i0, p0, "value")]
+            return out
+        if k == "match":
+            i0, p0 = ins or has(e["scrut"], inserts), pu or has(e["scrut"], pushes)
+            out = []
+            for a in e["arms"]:
+                out += expr_paths(a["body"], i0, p0)
+            return out
+        if k == "continue":
+            return [(None, ins, pu, "continue")]
+        if k == "break":
+            return [(None, ins, pu, "break")]
+        if k == "return" and not e.get("inl"):
+            v = peel(e["e"]).get("v") if "e" in e and peel(e["e"]).get("k") == "lit" else None
+            return [(v, ins, pu, "return")]
+        if k == "lit" and isinstance(e.get("v"), bool):
+            return [(e["v"], ins, pu, "value")]
+        if k == "let" and "els" in e:
+            i0, p0 = ins or has(e.get("init", {}), inserts), pu or has(e.get("init", {}), pushes)
+            return expr_paths(e["els"], i0, p0) + [(None, i0, p0, "value")]
+        return [(None, ins or has(e, inserts), pu or has(e, pushes), "value")]
+    res = expr_paths(n, ins, pu)
+    if pushes:
+        return [(p2, i2, st) for v, i2, p2, st in res]
+    return [(v, i2, st) for v, i2, p2, st in res]
 
 
 def bool_paths(n, inserts, seen=False):
